@@ -2,7 +2,8 @@
    number of stanzas received on the stream-managed session so far.
    (The h of <resume/> is the same counter: see Props/C11.v, C11_resume_content.) *)
 From Coq Require Import List ZArith NArith Bool.
-From XV Require Import Lib.Sx Model.Recv Proofs.RecvP Model.Session Model.SessionSpec Proofs.SessionSpecP Proofs.SessionHistP.
+From XV Require Import Lib.Sx Model.Recv Proofs.RecvP Model.Session Model.SessionSpec Model.SessionRecv
+  Proofs.SessionSpecP Proofs.SessionHistP Proofs.RecvSessionP.
 Import ListNotations.
 Open Scope N_scope.
 
@@ -13,7 +14,7 @@ Open Scope N_scope.
 Theorem C09_h_exact : forall items inb nw wf k h,
   nth_error (attempted (crecv inb nw wf items)) k = Some h ->
   exists pre post,
-    processed nw wf items = pre ++ ISmR :: post /\
+    processed items = pre ++ ISmR :: post /\
     length (filter is_r pre) = k /\
     h = inb + count_stanzas pre.
 Proof.
@@ -24,22 +25,63 @@ Qed.
 (* The count handed on with the Disconnected event (and used by a later <resume/>)
    is the starting count plus all stanzas processed: nothing else was counted. *)
 Theorem C09_count_at_loss : forall items inb nw wf,
-  In (AEvDisconnected (inb + count_stanzas (processed nw wf items))) (crecv inb nw wf items)
+  In (AEvDisconnected (inb + count_stanzas (processed items))) (crecv inb nw wf items)
   /\ count_act is_disc (crecv inb nw wf items) = 1%nat.
 Proof.
   intros items inb nw wf. pose proof (crecv_loss items inb nw wf) as H. cbn zeta in H.
   destruct H as (_ & _ & Hd & _ & Hin). split; assumption.
 Qed.
 
-(* Across connections ("continued across a resumption"), for every history of
-   connections on one Client, every server script and every amount of traffic:
-   a <resume/> always carries the count held; after a session that was resumed the
-   count held is the old one plus the stanzas received on it (C09_h_exact and
-   C09_count_at_loss give the per-stanza counting, [k_traffic] is their total); after a
+(* ---- "continued across a resumption": the receive loop and the negotiation together ----
+   [run_full] (Model/SessionRecv.v) is a history of connections on one Client in which every
+   established session runs the receive loop [crecv] on the elements that arrive on it,
+   started with the count the negotiation left; the count the Client holds afterwards is
+   READ FROM the Disconnected event the loop ends with (nothing is added up on the side).
+
+   The loop hands on exactly its starting count plus the stanzas it processed, in the one
+   Disconnected event it emits: *)
+Theorem C09_loop_hands_on_count : forall inb nw wf items,
+  lost_with (crecv inb nw wf items) = Some (inb + count_stanzas (processed items)).
+Proof. exact crecv_hands_on. Qed.
+
+(* ... so the history with real traffic is, connection by connection (requests, result,
+   state held afterwards), the history in which each session's traffic is summarised by the
+   number of stanzas its loop processed ([conn_of], [traffic_of]): *)
+Theorem C09_history_is_counted : forall cfg xs p,
+  map (fun y => fst (fst y)) (run_full cfg p xs) = run_conns cfg p (map conn_of xs).
+Proof. exact run_full_conns. Qed.
+
+(* ... every answer written during a session of the history carries the count that
+   negotiation left plus the stanzas received on this connection before the request
+   (C09_h_exact instantiated at the loop the history really runs): *)
+Theorem C09_history_answers : forall cfg xs p i w r p2 ev tr k h,
+  nth_error (run_full cfg p xs) i = Some (w, r, p2, ev, tr) -> r = Ok ->
+  nth_error (attempted tr) k = Some h ->
+  exists x p1 pre post, nth_error xs i = Some x /\
+    p2 = add_inbound p1 (traffic_of x) /\
+    processed (t_items x) = pre ++ ISmR :: post /\
+    length (filter is_r pre) = k /\ h = p_inbound p1 + count_stanzas pre.
+Proof. exact history_answers. Qed.
+
+(* ... and the h of every <resume/> of the history is the number of stanzas received on the
+   stream-managed session so far, as computed from the history alone ([session_counts],
+   Model/SessionSpec.v: a connection that binds starts a new session whose count is what
+   its own loop processed; one that succeeds without a bind continues the session and adds
+   what its loop processed; a failed attempt - refused dial, TLS, authentication, any step
+   - receives nothing and leaves the count alone), NOT from the state the client keeps. *)
+Theorem C09_resume_h_is_total : forall cfg xs p i y prev h a,
+  nth_error (run_full cfg p xs) i = Some y ->
+  nth_error (session_counts (p_inbound p) (map conn_of xs) (run_conns cfg p (map conn_of xs))) i = Some a ->
+  In (RResume prev h) (reqs (fst (fst (fst (fst y))))) -> h = a.
+Proof. exact resume_h_counts_received. Qed.
+
+(* Per connection of a history, for every server script and every amount of traffic
+   ([hist_ok], Model/SessionSpec.v): a <resume/> carries the count held; after a session
+   that was resumed the count held is the old one plus the stanzas received on it; after a
    session on which stream management was newly enabled it is the number of stanzas
-   received on that session alone.  ([hist_ok], Model/SessionSpec.v, is exactly these
-   three clauses for each connection of the history, the state after one connection
-   being the state before the next.) *)
+   received on that session alone; after a new session without stream management no id is
+   held (nothing will be reported to anybody); after a FAILED attempt, whatever the step
+   it failed at, id and count are both as before or nothing is held any more. *)
 Theorem C09_count_across_resumptions : forall cfg cs p,
   hist_ok p cs (run_conns cfg p cs).
 Proof. intros cfg cs p. exact (run_conns_hist cfg cs p). Qed.
@@ -58,11 +100,57 @@ Example C09_history_example :
   = [[]; [RResume [7] 3]; [RResume [7] 5]].
 Proof. reflexivity. Qed.
 
+(* enable, 3 stanzas (two <r/> in between), a refused dial, a failed TLS handshake, a rejected
+   password, then a resumption: h = 3; 2 more stanzas; resume with h = 5 *)
+Example C09_full_history_example :
+  let f0 := {| f_tls := TlsOffered; f_mechs := [mech_plain]; f_bind := false; f_sess := SessAbsent; f_sm := false |} in
+  let f1 := {| f_tls := TlsNone; f_mechs := [mech_plain]; f_bind := false; f_sess := SessAbsent; f_sm := false |} in
+  let f2 := {| f_tls := TlsNone; f_mechs := []; f_bind := true; f_sess := SessAbsent; f_sm := true |} in
+  let cfg := {| c_insecure := true; c_resource := []; c_sm_resume := true; c_mechs := [mech_plain] |} in
+  let hello := [SHeader []; SFeatures f1; SSuccess; SHeader []; SFeatures f2] in
+  let t s items d tl := {| t_dial := d; t_tls := tl; t_script := s; t_items := items; t_wf := no_fault |} in
+  let xs := [t (hello ++ [SIq TResult (PlBind [1]) false; SEnabled [7] ResTrue])
+               [IStanza KMsg 1; ISmR; IStanza KPres 2; ISmA 0; IStanza KIq 3; ISmR] true true;
+             t hello [] false true;
+             t [SHeader []; SFeatures f0; SProceed] [] true false;
+             t [SHeader []; SFeatures f1; SSaslFailure] [] true true;
+             t (hello ++ [SResumed [7]]) [IStanza KMsg 4; INonza 0; IStanza KMsg 5] true true;
+             t (hello ++ [SResumed [7]]) [] true true] in
+  map (fun y => (filter (fun r => match r with RResume _ _ => true | _ => false end) (reqs (fst (fst (fst (fst y))))),
+                 attempted (snd y)))
+      (run_full cfg (fresh true) xs)
+  = [([], [1; 3]); ([], []); ([], []); ([], []); ([RResume [7] 3], []); ([RResume [7] 5], [])] /\
+  session_counts 0 (map conn_of xs) (run_conns cfg (fresh true) (map conn_of xs)) = [0; 3; 3; 3; 3; 5].
+Proof. split; reflexivity. Qed.
+
+(* <enabled/> without resumption granted: stream management is on all the same; the next
+   connection resumes (h = 2) and the one after a refusal asks for <enable/> again, now with
+   resume false, and counts from zero *)
+Example C09_enabled_without_resume_example :
+  let f1 := {| f_tls := TlsNone; f_mechs := [mech_plain]; f_bind := false; f_sess := SessAbsent; f_sm := false |} in
+  let f2 := {| f_tls := TlsNone; f_mechs := []; f_bind := true; f_sess := SessAbsent; f_sm := true |} in
+  let cfg := {| c_insecure := true; c_resource := []; c_sm_resume := true; c_mechs := [mech_plain] |} in
+  let hello := [SHeader []; SFeatures f1; SSuccess; SHeader []; SFeatures f2] in
+  let bind := SIq TResult (PlBind [1]) false in
+  let k s t := {| k_dial := true; k_tls := true; k_script := s; k_traffic := t |} in
+  map (fun x => (filter (fun r => match r with RResume _ _ | REnable _ => true | _ => false end) (reqs (fst (fst x))),
+                 p_inbound (snd x)))
+      (run_conns cfg (fresh true)
+         [k (hello ++ [bind; SEnabled [7] ResAbsent]) 2;
+          k (hello ++ [SResumed [7]]) 1;
+          k (hello ++ [SFailed; bind; SEnabled [8] ResTrue]) 4])
+  = [([REnable true], 2); ([RResume [7] 2], 3); ([RResume [7] 3; REnable false], 4)].
+Proof. reflexivity. Qed.
+
 Example C09_example :
-  answers (crecv 5 0 None [ISmA 0; INonza 0; ISmR; IStanza KMsg 1; IStanza KPres 2; ISmA 3; ISmR])
+  answers (crecv 5 0 no_fault [ISmA 0; INonza 0; ISmR; IStanza KMsg 1; IStanza KPres 2; ISmA 3; ISmR])
   = [5; 7].
 Proof. reflexivity. Qed.
 
 Print Assumptions C09_h_exact.
 Print Assumptions C09_count_at_loss.
+Print Assumptions C09_loop_hands_on_count.
+Print Assumptions C09_history_is_counted.
+Print Assumptions C09_history_answers.
+Print Assumptions C09_resume_h_is_total.
 Print Assumptions C09_count_across_resumptions.
